@@ -7,7 +7,7 @@ from ..cfg import CFG
 from ..errors import AnalysisError
 from ..model import FuncInfo, dotted, src, walk_scope
 from ..report import Context
-from ..util import returned_value, calls_in, is_self_attr, node_for, normaliser, parse_expr, path_text, reaching_events, returns_of
+from ..util import returned_value, calls_in, is_self_attr, node_for, normaliser, parse_expr, path_text, reaching_events, returns_of, kwarg
 
 LEVEL_TEXT = (
     "Static analysis of mab.py / epsilon_greedy.py (no execution): get_reward and policy are read path by path "
@@ -267,6 +267,9 @@ def policy(ctx: Context) -> None:
         comp_ok = isinstance(v0, ast.ListComp) and len(v0.generators) == 1 and not v0.generators[0].ifs and src(v0.generators[0].iter) in ("range(self.n_actions)", "range(n_actions)")
         np_ok = isinstance(v0, ast.Call) and (dotted(v0.func) or "") in ("np.full", "np.zeros", "np.ones", "numpy.full", "numpy.zeros", "numpy.ones") and v0.args \
             and src(v0.args[0]) in ("self.n_actions", "n_actions", "(self.n_actions,)", "(n_actions,)")
+        if np_ok and (dotted(v0.func) or "").endswith("full") and attr == "Q" and (kwarg(v0, "dtype") is None or src(kwarg(v0, "dtype")) not in ("float", "np.float64", "numpy.float64")):
+            ctx.fail("R3.sizes", f"MABEpsilonGreedy.__init__:{attr}:dtype", f"`{src(v0)}` takes the dtype of the estimates from the initial value: with an integer initial value the in-place "
+                     "update `Q[a] += step * (reward - Q[a])` is truncated to an integer", init, st[0])
         ok = len(st) == 1 and (comp_ok or np_ok or (isinstance(v0, ast.BinOp) and isinstance(v0.op, ast.Mult) and src(v0.right) in ("self.n_actions", "n_actions") and isinstance(v0.left, ast.List)
                                                    and len(v0.left.elts) == 1))
         ctx.check(ok, "R3.sizes", f"MABEpsilonGreedy.__init__:{attr}", f"{attr} has one entry per action", f"{attr} initialised by `{src(st[0].value) if st else '?'}`", init, st[0] if st else init.node)
